@@ -348,10 +348,18 @@ def opaque_getitem(ex, base, idx, node):
 
 
 def opaque_setitem(ex, base, idx, v, node):
+    if base.cls:
+        info = ex.find_class(base.cls)
+        if info is not None and info.find_method('__setitem__'):
+            return ex.call_function(info.find_method('__setitem__'), [base, idx, v], {}, node)
     ex.limit(f'item store on opaque {base}', node)
 
 
 def opaque_delitem(ex, base, idx, node):
+    if base.cls:
+        info = ex.find_class(base.cls)
+        if info is not None and info.find_method('__delitem__'):
+            return ex.call_function(info.find_method('__delitem__'), [base, idx], {}, node)
     ex.limit(f'item delete on opaque {base}', node)
 
 
@@ -420,7 +428,8 @@ def instantiate_repo(ex, info, args, kwargs, node):
     if info.module.name == 'pywbem._cim_xml':
         # DOM element constructors: opaque objects (their content models are checked by the bounded stand-in)
         return VOpaque(z3.Const(ex.fresh_name('elem'), RefSort), info.name)
-    if info.name in OPAQUE_REPO_CLASSES:
+    tc = getattr(ex, 'top_contract', None)
+    if info.name in OPAQUE_REPO_CLASSES or (tc is not None and info.name in tc.opaque):
         ex.used_assumptions.add(f'A-CIMOBJ: {info.name}(...) construction does not raise for these arguments (opaque object)')
         return VOpaque(z3.Const(ex.fresh_name(info.name.lower()), RefSort), info.name)
     return None
